@@ -53,7 +53,17 @@ def gen_path(rng):
     loops = [rng.choice(LOOPS) for _ in range(nloops)]
     seg = qual = ele = comp = None
     shape = rng.choice(['loops', 'seg', 'seg', 'segq', 'sege', 'segqe', 'segec', 'segqec', 'bare', 'barec', 'bad_q', 'bad_e', 'bad_q_only',
-                        'bad_ec'])
+                        'bad_ec', 'bad_zero'])
+    if shape == 'bad_zero':
+        # element index 00 or component index 0 (the grammar counts from 01 and from 1): refused, not read as "the last one"
+        seg = rng.choice(SEGIDS + [None])
+        if seg is None:
+            loops, absolute = [], False
+        if rng.random() < 0.5:
+            last = (seg or '') + '00' + ('-%d' % rng.randint(1, 3) if rng.random() < 0.3 else '')
+        else:
+            last = (seg or '') + '%02d-0' % rng.randint(1, 20)
+        return ('/' if absolute else '') + '/'.join(list(loops) + [last]), 'error', shape
     if shape != 'loops':
         seg = rng.choice(SEGIDS)
     if shape in ('segq', 'segqe', 'segqec'):
